@@ -244,6 +244,25 @@ def _flatten(t):
     return out
 
 
+def _honours_new_cancellation(u: Unit, r: ast.Raise) -> bool:
+    """`raise CancelledError(..)` under `<task>.cancelling() > <count recorded when the function was entered>`: a cancellation request that arrived during this call outranks
+    retrying and whatever the function raised instead of it.  (Task.cancelling() is a counter: testing it for truth alone would also fire for a request the caller absorbed long ago.)"""
+    if not (isinstance(r.exc, ast.Call) and U(r.exc.func).split('.')[-1] == 'CancelledError'):
+        return False
+    gi = q.enclosing(r, (ast.If,))
+    if gi is None or not q.lexically_in(r, gi, 'body'):
+        return False
+    conj = gi.test.values if isinstance(gi.test, ast.BoolOp) and isinstance(gi.test.op, ast.And) else [gi.test]
+    for x in conj:
+        if isinstance(x, ast.Compare) and len(x.ops) == 1 and isinstance(x.ops[0], ast.Gt) and isinstance(x.left, ast.Call) and call_name(x.left) == 'cancelling' and isinstance(x.comparators[0], ast.Name):
+            base = x.comparators[0].id
+            loops = [n for n in own_nodes(u.node) if isinstance(n, (ast.For, ast.While))]
+            defs = [n for n in own_nodes(u.node) if isinstance(n, ast.Assign) and len(n.targets) == 1 and isinstance(n.targets[0], ast.Name) and n.targets[0].id == base]
+            if len(defs) == 1 and any(isinstance(y, ast.Call) and call_name(y) == 'cancelling' for y in ast.walk(defs[0].value)) and not any(q.lexically_in(defs[0], lp) for lp in loops):
+                return True
+    return False
+
+
 @ob('C19.6', 'FLOW', 'after the last attempt the caught exception itself is re-raised (bare raise in the attempt arm when attempt == retries)')
 def c19_6(c: Ctx) -> None:
     u, loop, fparam, calls = parts(c)
@@ -269,6 +288,7 @@ def c19_6(c: Ctx) -> None:
         nested = {id(x) for h2 in own_nodes(u.node) if isinstance(h2, ast.ExceptHandler) and h2 is not a and id(h2) in inside for b in h2.body for x in ast.walk(b)}
         final = [n for n in g.live_nodes() if n.kind == 'raise' and n.ast is not None and id(n.ast) in inside and id(n.ast) not in nested and n.ast.exc is None]
         typed = [n for n in g.live_nodes() if n.kind == 'raise' and n.ast is not None and id(n.ast) in inside and n.ast.exc is not None and U(n.ast.exc) != (a.name or '')]
+        typed = [n for n in typed if not _honours_new_cancellation(u, n.ast)]
         if final and not typed:
             c.ok(where(u, final[0].ast), 'the arm re-raises with bare `raise` (the original exception object)')
         else:
